@@ -115,8 +115,14 @@ def stepLine (s : S) (req resp : List String) : S × List String :=
             else []) ++
             (if (match headT with | some h => ns == h && nok | none => !nok) then [] else
               [s!"MON C17 NextScheduled=({ns},{nok}) but the head is {headT}"])
+          -- C19: what the client scribbled into maps it passed in or received must never come back
+          let c19 := tasks.filterMap fun t =>
+            let bad (m : SMap) := m.any fun kv => kv.1 == "scribbled-by-client" || (kv.2.splitOn "#scribbled").length > 1
+            if bad t.param || bad t.meta_ then
+              some s!"MON C19 a pending cron task of {t.workId} carries what the client scribbled into a map it had passed in or received"
+            else none
           ({ s with prev := snap, lastRejected := false, nontrivial := s.nontrivial || !tasks.isEmpty },
-            d ++ c16 ++ c15 ++ c15b ++ c17)
+            d ++ c16 ++ c15 ++ c15b ++ c17 ++ c19)
       | _, _, _, _ => (s, ["DIFF parse bad cs line"])
     | _ => (s, ["DIFF parse bad cs line"])
   | op :: rest =>
